@@ -63,7 +63,9 @@ def check_slice(res, f, src, lay, W, marks_by_base, a, b, desc):
         res.viol("result_width_attr_wrong", a=a, b=b, desc=desc, got=rw, expected=want_w)
     # zero-width marks: lenient
     k = -1
-    allowed = [(c) for (x, c) in marks_by_base.get("edge%d" % a, [])]  # marks sitting exactly on the left edge
+    # before the first base cell of the result: a mark sitting on the left edge belongs to the cell in column a-1, which is
+    # not part of the range - only at the very start of the string (a == 0, attached to nothing) it is tolerated
+    allowed = [(c) for (x, c) in marks_by_base.get("edge%d" % a, [])] if a == 0 else []
     ptr = 0
     for c in rc:
         if cw(c[0]) > 0:
